@@ -6,7 +6,7 @@ R = {True: 136, False: 168}
 RULE = ("scripts of calls (absorb / finalize / squeeze / squeezeblocks / absorb_once / one-shot / stream_init) on one state; "
         "every input length 0..3*rate+1, 2-splits of the input and of the output, requests longer than a block, mixed "
         "squeeze/squeezeblocks at block boundaries. Each script is compared with the model AND with python hashlib "
-        "(independent oracle). distinct_nontrivial = distinct scripts with non-empty output.")
+        "(independent oracle). distinct_nontrivial = distinct scripts with non-empty output. Re-initialisation at every kind of point (after whole-block absorbs, mid-block, after finalize, after squeezes), repeated and in random multi-phase scripts, both rates.")
 EXPLANATION = ("Props/C12.lean: sponge theorems generic in the permutation (absorb of a concatenation = absorbing the pieces, "
                "squeeze of n+m bytes = squeeze n then m, one-shot = incremental). The model's permutation is tied to the code and "
                "to hashlib on every run.")
